@@ -474,7 +474,8 @@ class FileResponse(Response, FileResponseMixin):
             await run_in_threadpool(os.close, file_descriptor)
 
     async def __call__(self, scope: Scope, receive: Receive, send: Send) -> None:
-        send_header_only = scope["method"] == "HEAD"
+        # (a websocket scope - the denial response - has no method)
+        send_header_only = scope.get("method") == "HEAD"
 
         stat_result = self.stat_result
         file_size = stat_result.st_size
